@@ -26,7 +26,7 @@ CHECKS = {
  'C16': ('exploration',
    'runtime differential monitor: pruned Evaluate vs EvaluateSlow with operand-call counting wrappers; clamp/farthest-corner oracle for MinMaxDist2',
    'Executes the real Box2/Box3.MinMaxDist2, Interval.Overlap and (*UnionSDF2).Evaluate on PRNG-generated boxes, points stratified over all 9/27 position classes (with class boundaries) and unions of 2-12 exact operands under 5 blend kinds, comparing each call with an independent oracle. Held-on-what-was-explored, not a proof.',
-   'Oracles: clamp-based nearest / per-axis farthest squared distance; max(a0,b0)<=min(a1,b1); EvaluateSlow (public reference). Union operands are exact-distance shapes with tight boxes.',
+   'Oracles: clamp-based nearest / per-axis farthest squared distance; max(a0,b0)<=min(a1,b1); EvaluateSlow (public reference). Random union operands are exact-distance shapes with material in their boxes (nil operands interleaved); operands that may be empty or that underestimate distances are two pinned known findings (KNOWN-FINDING lines), because no box pruning can be exact for them.',
    'DESIGN.md 2/C16'),
 }
 
